@@ -2023,8 +2023,8 @@ macro_rules! vec_impl_vec {
             }
             impl<T, U> az::OverflowingCast<$Vec<U>> for $Vec<T> where T: az::OverflowingCast<U> {
                 fn overflowing_cast(self) -> ($Vec<U>, bool) {
-                    $(let $get = self.$get.overflowing_cast();)*
-                    ($Vec::new($( $get.0 ),*), $($get.1)||*)
+                    $(let $namedget = self.$get.overflowing_cast();)*
+                    ($Vec::new($( $namedget.0 ),*), $($namedget.1)||*)
                 }
             }
             impl<T, U> az::UnwrappedCast<$Vec<U>> for $Vec<T> where T: az::UnwrappedCast<U> {
